@@ -92,6 +92,18 @@ def run(ctx):
                     ok = True
                 elif T.contains(sb, lambda x: x == T.len_(e)):
                     textual = True
+            if not ok and not textual:
+                # the guard may be written in a form that leaves no disjunctive fact (a table look-up that raises, a helper
+                # that translates KeyError): decided semantically - with the decoded size known to be none of the five,
+                # every path must refuse
+                facts_no = Facts()
+                for b_ in (128, 160, 192, 224, 256):
+                    facts_no = facts_no.add(T.not_(T.eq(T.const(b_), T.mul(T.const(8), nbytes)))).add(T.not_(T.eq(T.const(b_ // 8), nbytes)))
+                v_no, _ = Evaluator(p, 'ecdsa').call_function('bip39.mnemonic_from_entropy', [e], facts=facts_no)
+                lv = [x for _, x in leaves(v_no, (), set(facts_no))]
+                if lv and all(T.tag(x) == 'raise' for x in lv):
+                    ok = True
+                    ob.note('size guard decided semantically: with the decoded size outside the five sizes every path raises')
             ob.require(ok, 'a sentence is produced without the entropy size having been checked against {128,160,192,224,256} bits'
                        + (' (the only size guard is computed from the hex text, which bytes.fromhex does not map 1:1 to bytes)'
                           if textual else '') + ': 17 bytes give 12 words with 8 entropy bits dropped, "00 "*16 gives 18 words',
